@@ -277,8 +277,15 @@ def check(case: Case, res: Result, ctx: dict) -> list[dict]:
         if jl != j:
             out.append(V("workbook-route:dict-changed-by-dump-load",
                          f"json.loads(json.dumps(d)) != d: {_first_dict_difference(j, jl)}"))
+        s0 = d0 = None
         try:
-            xa = _xml(_build(jl))
+            s0 = _build(jl)
+            try:
+                d0 = s0.to_json_dict()      # dump of a survey whose XForm has not been generated yet
+            except Exception as e:  # noqa: BLE001
+                out.append(V(f"survey-route:pre-xml-dump-fails:{_ksite(e)}",
+                             f"to_json_dict() of a survey that has not generated its XForm failed: {_site(e)}: {str(e)[:200]}"))
+            xa = _xml(s0)
         except Exception as e:  # noqa: BLE001
             xa = None
             out.append(V(f"workbook-route:reload-fails:{_ksite(e)}", f"building/serialising the survey from the reloaded dict failed: "
@@ -287,7 +294,11 @@ def check(case: Case, res: Result, ctx: dict) -> list[dict]:
             for k, detail in differences(res.xform, xa).items():
                 out.append(V(f"workbook-route:xform-differs:{k}", f"XForm from the dumped+loaded workbook dict differs: {detail}"))
 
-    # ---- (b) survey -> to_json_dict -> text -> survey -> XForm / to_json_dict
+        # ---- (b0) the survey route on a dump taken BEFORE the XForm was generated
+        if d0 is not None and xa is not None:
+            out.extend(_pre_xml_route(s0, d0, res.xform))
+
+    # ---- (b) survey -> to_json_dict -> text -> survey -> XForm / to_json_dict  (dump taken AFTER to_xml())
     s = res.survey
     if s is None:
         return out
@@ -324,6 +335,52 @@ def check(case: Case, res: Result, ctx: dict) -> list[dict]:
     if xb is not None and xb != res.xform:
         for k, detail in differences(res.xform, xb).items():
             out.append(V(f"survey-route:xform-differs:{k}", f"XForm of the survey reloaded from its own dump differs: {detail}"))
+    if xb is not None and d2 is not None:
+        # dump, load, (generate the XForm), dump again
+        try:
+            d3 = s2.to_json_dict()
+        except Exception as e:  # noqa: BLE001
+            d3 = None
+            out.append(V(f"survey-route:second-dump-fails:{_ksite(e)}", f"to_json_dict() of the reloaded survey after to_xml() failed: {_site(e)}: {str(e)[:200]}"))
+        if d3 is not None and d3 != d1:
+            diff = _first_dict_difference(d1, d3) or "(difference in value types only)"
+            out.append(V(f"survey-route:dump-not-stable-after-xml:{_dict_key_class(diff)}",
+                         f"dump -> load -> to_xml -> dump changed the dict: {diff}"))
+    return out
+
+
+def _pre_xml_route(s0, d0, direct):
+    """s0: survey built from the reloaded workbook dict, d0 its dump taken before s0.to_xml() ran (it has run now)."""
+    out = []
+    # (the dump of s0 taken now, after to_xml(), is not required to equal d0: the statement compares a dump with the
+    # dump of the survey loaded from it - like with like - which is done below for d0 and in route (b) for the
+    # dump taken after to_xml())
+    try:
+        l0 = json.loads(json.dumps(d0))
+    except (TypeError, ValueError) as e:
+        return [*out, V("survey-route:not-json-serialisable", f"json.dumps(survey.to_json_dict()) (before to_xml) failed: {e}")]
+    try:
+        s3 = _build(l0)
+    except Exception as e:  # noqa: BLE001
+        return [*out, V(f"survey-route:pre-xml-dump:reload-fails:{_ksite(e)}",
+                        f"create_survey_element_from_dict(dump taken before to_xml) failed: {_site(e)}: {str(e)[:200]}")]
+    try:
+        d3 = s3.to_json_dict()
+        if d3 != d0:
+            diff = _first_dict_difference(d0, d3) or "(difference in value types only)"
+            out.append(V(f"survey-route:pre-xml-dump:dump-not-stable:{_dict_key_class(diff)}",
+                         f"dump (before to_xml) -> load -> dump changed the dict: {diff}"))
+    except Exception as e:  # noqa: BLE001
+        out.append(V(f"survey-route:second-dump-fails:{_ksite(e)}", f"to_json_dict() of the survey reloaded from the pre-to_xml dump failed: {_site(e)}: {str(e)[:200]}"))
+    try:
+        x3 = _xml(s3)
+    except Exception as e:  # noqa: BLE001
+        return [*out, V(f"survey-route:pre-xml-dump:reloaded-survey-fails:{_ksite(e)}",
+                        f"to_xml() of the survey reloaded from the pre-to_xml dump failed: {_site(e)}: {str(e)[:200]}")]
+    if x3 != direct:
+        for k, detail in differences(direct, x3).items():
+            out.append(V(f"survey-route:pre-xml-dump:xform-differs:{k}",
+                         f"XForm of the survey reloaded from the dump taken before to_xml() differs: {detail}"))
     return out
 
 
@@ -642,13 +699,16 @@ ENTITIES = {
 }
 
 
-def assemble(name, parts, settings=None, entities=None, rnd=None, multi=False):
-    """parts: [(bundle name, wrapper name)]."""
+def assemble(name, parts, settings=None, entities=None, rnd=None, multi=False, table=None):
+    """parts: [(bundle name, wrapper name)]; a bundle may bring the settings it needs (the explicit ones win)."""
+    table = table or BUNDLES
+    needed = {}
     survey = [{"type": "text", "name": "first", "label": "First"}, {"type": "integer", "name": "second", "label": "Second"}]
     sheets = {"choices": [], "external_choices": [], "osm": []}
     for i, (bn, wn) in enumerate(parts):
         p = f"p{i}_"
-        b = BUNDLES[bn](p, "first", multi)
+        b = table[bn](p, "first", multi)
+        needed.update(b.get("settings", {}))
         wrap = WRAPPERS[wn]
         for j, (kind, cells) in enumerate(wrap):
             survey.append({"type": f"begin {kind}", "name": f"{p}w{j}", "label": f"W{j}", **cells})
@@ -687,11 +747,329 @@ def assemble(name, parts, settings=None, entities=None, rnd=None, multi=False):
     for k, rows in sheets.items():
         if rows:
             wb[k] = corpus.sheet_from_dicts(rows, ["list_name", "name"])
-    if settings:
-        wb["settings"] = corpus.sheet_from_dicts([settings])
+    if settings or needed:
+        wb["settings"] = corpus.sheet_from_dicts([{**needed, **(settings or {})}])
     if entities:
         wb["entities"] = corpus.sheet_from_dicts(entities)
     return Case(f"C16-{name}", wb=wb, origin="C16")
+
+
+# ----------------------------------------------------------------------------- family 5: form settings x features
+# Form-level settings and legacy features that change HOW the survey is built (not only what is in it), crossed
+# with small forms: lists shared by several questions, nesting in group / repeat, translations.
+
+
+def _tr(ml, t, col="label"):
+    return {f"{col}::{L1}": t, f"{col}::{L2}": t + " (fr)"} if ml else {col: t}
+
+
+def f_shared_multi(p, ref, ml):
+    """several select_multiple (and a select_one) on one list"""
+    ch = [{"list_name": f"{p}sl", "name": n, **_tr(ml, n.upper())} for n in ("a", "b", "c")]
+    return {"survey": [
+        {"type": f"select_multiple {p}sl", "name": f"{p}m1", **_tr(ml, "M1")},
+        {"type": f"select_multiple {p}sl", "name": f"{p}m2", **_tr(ml, "M2"), "constraint": "count-selected(.) < 3",
+         "constraint_message": "at most two"},
+        {"type": f"select_one {p}sl", "name": f"{p}o1", **_tr(ml, "O1")},
+        {"type": f"select_multiple {p}sl", "name": f"{p}m3", **_tr(ml, "M3"), "choice_filter": "name != ${%so1}" % p},
+        {"type": f"select_multiple {p}sl", "name": f"{p}m4", **_tr(ml, "M4 ${%s}" % ref), "relevant": "${%sm1} != ''" % p},
+    ], "choices": ch}
+
+
+def f_shared_multi_none(p, ref, ml):
+    """two lists, one already has a choice called none; list media"""
+    ch = [{"list_name": f"{p}n1", "name": n, **_tr(ml, n.title()), "media::image": f"{n}.png"} for n in ("x", "none", "y")]
+    ch += [{"list_name": f"{p}n2", "name": n, **_tr(ml, n.title()), "grp": "g" + n} for n in ("u", "v")]
+    return {"survey": [
+        {"type": f"select_multiple {p}n1", "name": f"{p}k1", **_tr(ml, "K1")},
+        {"type": f"select_multiple {p}n2", "name": f"{p}k2", **_tr(ml, "K2")},
+        {"type": f"select_multiple {p}n1", "name": f"{p}k3", **_tr(ml, "K3")},
+        {"type": f"select_multiple {p}n2", "name": f"{p}k4", **_tr(ml, "K4"), "choice_filter": "grp = ${%s}" % ref,
+         "parameters": "randomize=true"},
+        {"type": f"rank {p}n2", "name": f"{p}k5", **_tr(ml, "K5")},
+    ], "choices": ch}
+
+
+def f_type_defaults(p, ref, ml):
+    """types whose type-table entry has defaults (hint, constraint, readonly, preload, mediatype), overridden or not"""
+    return {"survey": [
+        {"type": "phone number", "name": f"{p}ph1", **_tr(ml, "Ph1"), **_tr(ml, "My hint.", "hint")},
+        {"type": "phone number", "name": f"{p}ph2", **_tr(ml, "Ph2")},
+        {"type": "phone number", "name": f"{p}ph3", **_tr(ml, "Ph3"), "constraint": "string-length(.) = 9",
+         "constraint_message": "nine digits", "hint": "Enter numbers only."},
+        {"type": "number of days in last month", "name": f"{p}nd1", **_tr(ml, "Nd1"), "constraint": ". < 20"},
+        {"type": "number of days in last six months", "name": f"{p}nd2", **_tr(ml, "Nd2"), "hint": "About ${%s}" % ref,
+         "bind::type": "decimal"},
+        {"type": "number of days in last year", "name": f"{p}nd3", **_tr(ml, "Nd3"), **_tr(ml, "guide", "guidance_hint")},
+        {"type": "percentage", "name": f"{p}pc1", **_tr(ml, "Pc1"), "constraint": ". <= 50", "required": "yes"},
+        {"type": "percentage", "name": f"{p}pc2", **_tr(ml, "Pc2"), "hint": "0-100"},
+        {"type": "note", "name": f"{p}nt", **_tr(ml, "Nt"), "readonly": "false()", "bind::type": "int"},
+        {"type": "add note prompt", "name": f"{p}anp", **_tr(ml, "Anp"), "readonly": "${%s} = 'ro'" % ref},
+        {"type": "photo", "name": f"{p}pho", **_tr(ml, "Photo"), "body::mediatype": "image/jpeg", "parameters": "max-pixels=100"},
+        {"type": "audio", "name": f"{p}au", **_tr(ml, "Au"), "bind::type": "string", "parameters": "quality=normal"},
+        {"type": "file", "name": f"{p}fi", **_tr(ml, "Fi"), "body::accept": ".pdf", "body::mediatype": "application/pdf"},
+        {"type": "range", "name": f"{p}rg", **_tr(ml, "Rg"), "parameters": "start=2 end=8 step=3", "bind::type": "decimal"},
+    ]}
+
+
+def f_type_defaults_meta(p, ref, ml):
+    """preload types (bind defaults jr:preload / jr:preloadParams / type) and action types, with overrides"""
+    return {"survey": [
+        {"type": "start time", "name": f"{p}st", "bind::type": "date"},
+        {"type": "get today", "name": f"{p}td", "bind::jr:preloadParams": "now"},
+        {"type": "imei", "name": f"{p}im", "bind::jr:preload": "context"},
+        {"type": "uri:username", "name": f"{p}un", "bind::type": "text", "bind::odk:x": "1"},
+        {"type": "sim id", "name": f"{p}si"},
+        {"type": "start-geopoint", "name": f"{p}sgp", "bind::type": "string"},
+    ]}
+
+
+def f_loop(p, ref, ml):
+    ch = [{"list_name": f"{p}veh", "name": n, **_tr(ml, n.title())} for n in ("car", "bike", "e-scooter")]
+    ch += [{"list_name": f"{p}yn", "name": n, **_tr(ml, n.title())} for n in ("yes", "no")]
+    return {"survey": [
+        {"type": f"begin loop over {p}veh", "name": f"{p}loop", **_tr(ml, "About %(label)s")},
+        {"type": "integer", "name": f"{p}n", **_tr(ml, "How many %(label)s"), "constraint": ". >= 0"},
+        {"type": f"select_one {p}yn", "name": f"{p}own", **_tr(ml, "Own %(name)s?"), "relevant": "${%s} != ''" % ref},
+        {"type": f"select_multiple {p}veh", "name": f"{p}also", **_tr(ml, "Also")},
+        {"type": "end loop"},
+        {"type": f"select_one {p}veh", "name": f"{p}fav", **_tr(ml, "Favourite")},
+    ], "choices": ch}
+
+
+def f_osm(p, ref, ml):
+    ch = [{"list_name": f"{p}yn", "name": n, **_tr(ml, n.title())} for n in ("yes", "no")]
+    return {"survey": [
+        {"type": "osm", "name": f"{p}way", **_tr(ml, "Way")},
+        {"type": f"osm {p}tags", "name": f"{p}bld", **_tr(ml, "Building"), "relevant": "${%s} != ''" % ref},
+        {"type": f"osm {p}tags", "name": f"{p}bld2", **_tr(ml, "Building 2"), "required": "yes"},
+        {"type": f"select_one {p}yn", "name": f"{p}ok", **_tr(ml, "OK?")},
+    ], "choices": ch,
+        "osm": [{"list_name": f"{p}tags", "name": "name", "label": "Name"},
+                {"list_name": f"{p}tags", "name": "building", "label": "Kind"},
+                {"list_name": f"{p}other", "name": "amenity", "label": "Amenity"}]}
+
+
+def f_dup_choices(p, ref, ml):
+    """choice names repeated inside a list (needs allow_choice_duplicates)"""
+    ch = [{"list_name": f"{p}dl", "name": n, **_tr(ml, f"{n}{i}"), "grp": "g%d" % (i % 2)}
+          for i, n in enumerate(("a", "b", "a", "c", "a"))]
+    return {"survey": [
+        {"type": f"select_one {p}dl", "name": f"{p}d1", **_tr(ml, "D1")},
+        {"type": f"select_multiple {p}dl", "name": f"{p}d2", **_tr(ml, "D2"), "choice_filter": "grp = ${%s}" % ref},
+        {"type": f"select_multiple {p}dl", "name": f"{p}d3", **_tr(ml, "D3")},
+    ], "choices": ch, "settings": {"allow_choice_duplicates": "yes"}}
+
+
+def f_prefixed_attrs(p, ref, ml):
+    """prefixed attribute columns on questions, groups, repeats (needs the namespaces setting)"""
+    return {"survey": [
+        {"type": "text", "name": f"{p}x1", **_tr(ml, "X1"), "bind::ex:kind": "k1", "body::ex:look": "l1", "instance::ex:mark": "m1"},
+        {"type": "begin group", "name": f"{p}xg", **_tr(ml, "XG"), "bind::ex:kind": "kg", "body::ex:look": "lg",
+         "instance::ex:mark": "mg", "body::plain": "p1"},
+        {"type": "integer", "name": f"{p}x2", **_tr(ml, "X2"), "bind::esri:fieldType": "esriFieldTypeInteger",
+         "body::esri:style": "s", "bind::ex:expr": "${%s}" % ref},
+        {"type": "end group"},
+        {"type": "begin repeat", "name": f"{p}xr", **_tr(ml, "XR"), "bind::ex:kind": "kr", "body::ex:look": "lr",
+         "instance::ex:mark": "mr"},
+        {"type": "geopoint", "name": f"{p}x3", **_tr(ml, "X3"), "bind::esri:fieldType": "null"},
+        {"type": "end repeat"},
+    ], "settings": {"namespaces": 'ex="http://example.org/ex" esri="http://esri.com/xforms"'}}
+
+
+def f_group_attrs(p, ref, ml):
+    """groups with and without label / appearance, carrying body:: bind:: instance:: columns and logic"""
+    return {"survey": [
+        {"type": "begin group", "name": f"{p}ga", "bind::foo": "b1", "body::bar": "c1", "relevant": "${%s} = 'x'" % ref},
+        {"type": "text", "name": f"{p}a1", **_tr(ml, "A1")},
+        {"type": "begin group", "name": f"{p}gb", **_tr(ml, "GB"), "appearance": "field-list", "body::bar": "c2",
+         "instance::baz": "i2", "readonly": "yes", "required": "yes", "calculation": "1"},
+        {"type": "text", "name": f"{p}b1", **_tr(ml, "B1")},
+        {"type": "begin group", "name": f"{p}gc", "body::class": "w2", "relevant": "${%sb1} != ''" % p},
+        {"type": "note", "name": f"{p}c1", **_tr(ml, "C1 ${%sb1}" % p)},
+        {"type": "end group"},
+        {"type": "end group"},
+        {"type": "end group"},
+        {"type": "begin repeat", "name": f"{p}gr", **_tr(ml, "GR"), "body::bar": "c3", "bind::foo": "b3",
+         "body::jr:count": "2"},
+        {"type": "text", "name": f"{p}r1", **_tr(ml, "R1")},
+        {"type": "end repeat"},
+    ]}
+
+
+def f_select_params(p, ref, ml):
+    ch = [{"list_name": f"{p}pl", "name": n, **_tr(ml, n.upper())} for n in ("a", "b", "c")]
+    return {"survey": [
+        {"type": f"select_one {p}pl", "name": f"{p}s1", **_tr(ml, "S1"), "parameters": "randomize=true"},
+        {"type": f"select_one {p}pl", "name": f"{p}s2", **_tr(ml, "S2"), "parameters": "randomize=true seed=7"},
+        {"type": f"select_one {p}pl", "name": f"{p}s3", **_tr(ml, "S3"), "parameters": "randomize=true, seed=${%ssd}" % p,
+         "choice_filter": "name != ${%ss1}" % p},
+        {"type": "decimal", "name": f"{p}sd", **_tr(ml, "Seed")},
+        {"type": f"select_one {p}pl", "name": f"{p}s4", **_tr(ml, "S4"), "parameters": "randomize=false"},
+    ], "choices": ch}
+
+
+def f_rand_multi(p, ref, ml):
+    ch = [{"list_name": f"{p}rl", "name": n, **_tr(ml, n.upper())} for n in ("a", "b", "c")]
+    return {"survey": [
+        {"type": f"select_multiple {p}rl", "name": f"{p}rm1", **_tr(ml, "RM1"), "parameters": "randomize=true seed=7"},
+        {"type": f"select_multiple {p}rl", "name": f"{p}rm2", **_tr(ml, "RM2"), "parameters": "randomize=true",
+         "choice_filter": "name != ${%s}" % ref},
+        {"type": f"select_multiple {p}rl", "name": f"{p}rm3", **_tr(ml, "RM3")},
+        {"type": f"rank {p}rl", "name": f"{p}rm4", **_tr(ml, "RM4"), "parameters": "randomize=true seed=${second}"},
+    ], "choices": ch}
+
+
+def f_from_file(p, ref, ml):
+    return {"survey": [
+        {"type": f"select_one_from_file {p}f.csv", "name": f"{p}s5", **_tr(ml, "S5"), "parameters": "value=code label=title"},
+        {"type": f"select_one_from_file {p}f.csv", "name": f"{p}s6", **_tr(ml, "S6"), "parameters": "label=nm",
+         "choice_filter": "grp = ${%s}" % ref},
+        {"type": f"select_one_from_file {p}g.geojson", "name": f"{p}s7", **_tr(ml, "S7"), "parameters": "value=uid",
+         "appearance": "map"},
+        {"type": f"select_one_from_file {p}h.xml", "name": f"{p}s8", **_tr(ml, "S8"), "parameters": "randomize=true value=k"},
+        {"type": f"select_one_from_file {p}f.csv", "name": f"{p}s9", **_tr(ml, "S9")},
+    ]}
+
+
+def f_from_file_multi(p, ref, ml):
+    return {"survey": [
+        {"type": f"select_multiple_from_file {p}m.csv", "name": f"{p}fm1", **_tr(ml, "FM1"), "parameters": "value=code, label=nm"},
+        {"type": f"select_multiple_from_file {p}m.csv", "name": f"{p}fm2", **_tr(ml, "FM2"), "choice_filter": "grp = ${%s}" % ref},
+    ]}
+
+
+def f_or_other(p, ref, ml):
+    ch = [{"list_name": f"{p}oo", "name": n, **_tr(ml, n.upper())} for n in ("x", "y")]
+    return {"survey": [
+        {"type": f"select_one {p}oo or_other", "name": f"{p}o1", **_tr(ml, "O1")},
+        {"type": f"select_multiple {p}oo or_other", "name": f"{p}o2", **_tr(ml, "O2"), "relevant": "${%so1} != 'x'" % p},
+        {"type": f"select_multiple {p}oo", "name": f"{p}o3", **_tr(ml, "O3")},
+        {"type": f"select_one {p}oo or_other", "name": f"{p}o4", **_tr(ml, "O4"), "required": "yes"},
+    ], "choices": ch}
+
+
+def f_search(p, ref, ml):
+    ch = [{"list_name": f"{p}s1", "name": "name_key", **_tr(ml, "name")},
+          {"list_name": f"{p}s2", "name": "k", **_tr(ml, "n"), "media::image": "i.png"},
+          {"list_name": f"{p}s2", "name": "static", **_tr(ml, "Static")}]
+    return {"survey": [
+        {"type": f"select_one {p}s1", "name": f"{p}q1", **_tr(ml, "Q1"), "appearance": "search('%sfruits')" % p},
+        {"type": f"select_multiple {p}s2", "name": f"{p}q2", **_tr(ml, "Q2"),
+         "appearance": "minimal search('%sfruits', 'contains', 'name', ${%s})" % (p, ref)},
+        {"type": f"select_one {p}s2", "name": f"{p}q3", **_tr(ml, "Q3"), "appearance": "search('%sveg')" % p},
+        {"type": f"select_one {p}s1", "name": f"{p}q4", **_tr(ml, "Q4"),
+         "appearance": "search('%sveg', 'matches', 'kind', 'leaf')" % p},
+    ], "choices": ch}
+
+
+def f_triggers(p, ref, ml):
+    return {"survey": [
+        {"type": "text", "name": f"{p}src", **_tr(ml, "Src")},
+        {"type": "dateTime", "name": f"{p}t1", "calculation": "now()", "trigger": "${%ssrc}" % p},
+        {"type": "calculate", "name": f"{p}t2", "calculation": "concat(${%ssrc}, ${%s})" % (p, ref), "trigger": "${%ssrc}" % p},
+        {"type": "text", "name": f"{p}t3", **_tr(ml, "T3"), "trigger": "${%s}" % ref},
+        {"type": "background-geopoint", "name": f"{p}bg1", "trigger": "${%ssrc}" % p},
+        {"type": "background-geopoint", "name": f"{p}bg2", "trigger": "${%s}" % ref},
+        {"type": "integer", "name": f"{p}dd", **_tr(ml, "DD"), "default": "${%s} * 2" % "second"},
+        {"type": "begin repeat", "name": f"{p}tr", **_tr(ml, "TR")},
+        {"type": "text", "name": f"{p}in", **_tr(ml, "In")},
+        {"type": "calculate", "name": f"{p}t4", "calculation": "${%sin}" % p, "trigger": "${%sin}" % p},
+        {"type": "background-geopoint", "name": f"{p}bg3", "trigger": "${%sin}" % p},
+        {"type": "text", "name": f"{p}dy", **_tr(ml, "Dy"), "default": "concat(${%ssrc}, 'x')" % p},
+        {"type": "end repeat"},
+    ]}
+
+
+def f_spaces(p, ref, ml):
+    """texts whose inner / outer white space the clean_text_values setting is about"""
+    ch = [{"list_name": f"{p}ws", "name": n, **_tr(ml, f"Two  spaces {n} ")} for n in ("a", "b")]
+    return {"survey": [
+        {"type": f"select_one {p}ws", "name": f"{p}w1", **_tr(ml, "A  label   with runs"), **_tr(ml, " padded hint ", "hint")},
+        {"type": "text", "name": f"{p}w2", **_tr(ml, "W2"), "constraint": ".  !=  'a  b'", "default": "two  spaces",
+         "constraint_message": "no  way"},
+        {"type": "calculate", "name": f"{p}w3", "calculation": "concat('a  b',  ${%s})" % ref},
+    ], "choices": ch}
+
+
+FEATURES = {
+    "sharedmulti": f_shared_multi, "sharednone": f_shared_multi_none, "typedefaults": f_type_defaults,
+    "typemeta": f_type_defaults_meta, "loop": f_loop, "osm": f_osm, "dupchoices": f_dup_choices,
+    "prefixed": f_prefixed_attrs, "groupattrs": f_group_attrs, "selparams": f_select_params, "randmulti": f_rand_multi, "fromfile": f_from_file, "fromfilemulti": f_from_file_multi,
+    "orother": f_or_other,
+    "search": f_search, "triggers": f_triggers, "spaces": f_spaces,
+}
+F_TOP_ONLY = {"typemeta"}
+
+_NS = 'ex="http://example.org/ex" esri="http://esri.com/xforms"'
+F_SETTINGS = {
+    "none": {},
+    "addnone": {"add_none_option": "yes"},
+    "addnone-false": {"add_none_option": "no", "form_title": "T"},
+    "dups": {"allow_choice_duplicates": "yes"},
+    "deflang": {"default_language": L2},
+    "deflang-other": {"default_language": "Spanish (es)", "form_title": "Otro"},
+    "style": {"style": "pages theme-grid"},
+    "noclean": {"clean_text_values": "no", "form_title": "Two  spaces"},
+    "omitid": {"omit_instanceID": "yes", "form_id": "noid"},
+    "instname": {"instance_name": "concat(${first}, '/', ${second})"},
+    "crypto": {"public_key": "MIIBIjANBgkqhkiG9w0BAQEFAAOCAQ8A", "submission_url": "https://example.org/s",
+               "auto_send": "true"},
+    "ns": {"namespaces": _NS, "attribute::ex:tag": "v1", "attribute::plain": "v2"},
+    "ident": {"name": "Root_1", "id_string": "ids", "instance_xmlns": "http://example.org/inst", "version": "7",
+              "prefix": "pf", "delimiter": "+", "sms_keyword": "kw"},
+    "all": {"add_none_option": "yes", "allow_choice_duplicates": "yes", "default_language": L1, "style": "pages",
+            "clean_text_values": "no", "instance_name": "${first}", "public_key": "MIIB", "submission_url": "https://e.org/s",
+            "namespaces": _NS, "attribute::ex:tag": "t", "version": "1", "form_id": "allset", "form_title": "All"},
+}
+F_ENTITIES = {None: None, "create": ENTITIES["create"], "update": ENTITIES["update_label"], "upsert": ENTITIES["upsert"]}
+F_WRAPPERS = ("top", "g", "r", "rg")
+
+
+def _feature_case(fn, sn, en, wn, ml, second=None):
+    st = dict(F_SETTINGS[sn])
+    ent = F_ENTITIES[en]
+    if ent and "version" not in st:
+        st["version"] = "5"
+    if fn in F_TOP_ONLY:
+        wn = "top"
+    parts = [(fn, wn)]
+    if second:
+        parts.append((second, "top" if second in F_TOP_ONLY else "g"))
+    nm = f"sx-{fn}{'+' + second if second else ''}-{sn}-{en or 'noent'}-{wn}-{'ml' if ml else 'sl'}"
+    return assemble(nm, parts, settings=st or None, entities=ent, multi=ml, table=FEATURES)
+
+
+def feature_cases(tier, seed):
+    rnd = random.Random(seed * 104729 + 1605)
+    out = []
+    fs, ss, es = list(FEATURES), list(F_SETTINGS), list(F_ENTITIES)
+    if tier == "quick":
+        # every feature x every setting once; wrapper, language and entities variants rotate over the grid
+        for i, fn in enumerate(fs):
+            for j, sn in enumerate(ss):
+                k = i * 5 + j * 3
+                en = es[(i + j) % len(es)] if (i + 2 * j) % 3 == 0 else None
+                out.append(_feature_case(fn, sn, en, F_WRAPPERS[k % len(F_WRAPPERS)], bool((i + j) % 2)))
+        # every feature x every entities variant, and two features together under the settings that touch lists
+        for i, fn in enumerate(fs):
+            for j, en in enumerate(es[1:]):
+                out.append(_feature_case(fn, "none", en, F_WRAPPERS[(i + j) % len(F_WRAPPERS)], bool((i + j + 1) % 2)))
+        for i in range(40):
+            a, b = rnd.sample(fs, 2)
+            out.append(_feature_case(a, rnd.choice(("addnone", "all", "dups", "deflang", "ns")), rnd.choice(es),
+                                     rnd.choice(F_WRAPPERS), rnd.random() < 0.5, second=b))
+        return out
+    for fn in fs:
+        for sn in ss:
+            for wn in (("top",) if fn in F_TOP_ONLY else F_WRAPPERS):
+                for ml in (False, True):
+                    out.append(_feature_case(fn, sn, None, wn, ml))
+            for en in es[1:]:
+                out.append(_feature_case(fn, sn, en, rnd.choice(F_WRAPPERS), rnd.random() < 0.5))
+    for a, b in itertools.permutations(fs, 2):
+        out.append(_feature_case(a, rnd.choice(ss), rnd.choice(es), rnd.choice(F_WRAPPERS), rnd.random() < 0.5, second=b))
+    return out
 
 
 def cases(tier: str, seed: int) -> list[Case]:
@@ -736,4 +1114,6 @@ def cases(tier: str, seed: int) -> list[Case]:
         elif ent and st is None:
             st = {"version": "9"}
         out.append(assemble(f"rand-{i}", parts, settings=st, entities=ent, rnd=rnd, multi=rnd.random() < 0.5))
+    # 5. form settings x features that change how the survey is built
+    out.extend(feature_cases(tier, seed))
     return out
